@@ -1,8 +1,141 @@
-//! C08 — not built yet (stub).
+//! C08 — include shares the caller's scope; render isolates the partial.
+//!
+//! non-trivial rule: the executed or dead paths of the caller contain at least one include or
+//! render tag (all generated scenarios do; scenarios whose reference verdict is "unspecified"
+//! are not counted).
+use super::common::{run_case, Case, PSrc};
 use crate::ctx::Ctx;
+use crate::gen::ast::*;
+use crate::gen::scope::{probe, ScopeGen, ScopeOpts};
+use crate::rng::Rng;
+use crate::val::{s, RVal};
 
-pub fn run(_ctx: &mut Ctx) {}
+fn scenario(r: &mut Rng) -> (Vec<Node>, Vec<(String, PSrc)>, RVal) {
+    let n_partials = 1 + r.below(3);
+    let names: Vec<String> = (1..=n_partials).map(|i| format!("p{i}")).collect();
+    let mut parts: Vec<(String, PSrc)> = Vec::new();
+    // partial i may invoke partials with a larger index (nesting <= 3, no recursion)
+    for i in 0..n_partials {
+        let mut callable: Vec<String> = names[i + 1..].to_vec();
+        if r.chance(1, 6) {
+            callable.push("missing".into());
+        }
+        let o = ScopeOpts {
+            callable,
+            allow_render: true,
+            allow_cycle_ifchanged: true,
+            // a break/continue at the top level of a partial: include propagates it to the caller's loop
+            allow_interrupts_at_top: r.chance(1, 3),
+            max_depth: 2,
+            dynamic_names: false,
+        };
+        let mut g = ScopeGen { rng: r, o };
+        let len = 1 + g.rng.below(4);
+        parts.push((names[i].clone(), PSrc::Ast(g.body(0, false, len))));
+    }
+    let with_broken = r.chance(1, 3);
+    if with_broken {
+        parts.push(("broken".into(), PSrc::Broken(r.choose(&["{% if %}", "{{ a | nofilter }}", "{% endfor %}", "{% for %}x"]).to_string())));
+    }
+    let mut callable = names.clone();
+    if r.chance(1, 6) {
+        callable.push("missing".into());
+    }
+    if with_broken {
+        callable.push("broken".into());
+    }
+    let o = ScopeOpts { callable, allow_render: true, allow_cycle_ifchanged: true, allow_interrupts_at_top: false, max_depth: 3, dynamic_names: true };
+    let main = {
+        let mut g = ScopeGen { rng: r, o };
+        let len = 1 + g.rng.below(6);
+        let mut m = g.body(0, false, len);
+        // dead path naming a missing / broken partial: must not affect anything
+        if g.rng.chance(1, 2) {
+            let dead = if with_broken && g.rng.chance(1, 2) { "broken" } else { "missing" };
+            let tag = if g.rng.chance(1, 2) {
+                Node::Include { name: Expr::str(dead), args: vec![] }
+            } else {
+                Node::Render { name: Expr::str(dead), mode: RenderMode::Plain, args: vec![] }
+            };
+            let pos = g.rng.below(m.len() + 1);
+            m.insert(pos, Node::If { arms: vec![(Cond::atom(Atom::Truthy(Expr::Lit(RVal::Bool(false)))), vec![tag])], else_: None });
+        }
+        m
+    };
+    let mut kv: Vec<(String, RVal)> = match r.below(3) {
+        0 => vec![("a".into(), s("da")), ("b".into(), RVal::Int(5))],
+        1 => vec![("c".into(), s("dc"))],
+        _ => vec![("a".into(), RVal::Int(1)), ("b".into(), s("db")), ("c".into(), RVal::Bool(true))],
+    };
+    for n in &names {
+        kv.push((format!("pn_{n}"), s(n)));
+    }
+    (main, parts, RVal::Object(kv))
+}
 
-pub fn replay(_j: &serde_json::Value) -> bool {
-    false
+/// fixed, hand-written scenarios for each clause of the statement (the generator covers the
+/// combinations; these make sure every clause is exercised on every run)
+fn fixed() -> Vec<(Vec<Node>, Vec<(String, PSrc)>, RVal)> {
+    let v = Expr::var;
+    let txt = |t: &str| Node::Text(t.to_string());
+    let data = RVal::Object(vec![("a".into(), s("da")), ("b".into(), RVal::Int(5))]);
+    let mut out = Vec::new();
+    // include: sees and rebinds caller variables, arguments visible only inside, break ends caller loop
+    let p = vec![Node::Out(v("a"), vec![]), Node::Out(v("x"), vec![]), Node::Assign("a".into(), Expr::str("from-p"), vec![]), Node::If { arms: vec![(Cond::atom(Atom::Cmp(v("i"), Op::Eq, Expr::int(2))), vec![Node::Break])], else_: None }, txt("|")];
+    let main = {
+        let mut m = vec![Node::For { var: "i".into(), coll: Coll::Range(Expr::int(1), Expr::int(4)), limit: None, offset: None, reversed: false, body: vec![Node::Include { name: Expr::str("p"), args: vec![("x".into(), Expr::str("arg"))] }, txt("after")], else_: None }];
+        m.extend(probe());
+        m.push(Node::If { arms: vec![(Cond::atom(Atom::Truthy(v("x"))), vec![txt("x-leaked")])], else_: Some(vec![txt("x-gone")]) });
+        m
+    };
+    out.push((main, vec![("p".to_string(), PSrc::Ast(p))], data.clone()));
+    // render: starts from its arguments only; assignments / break never reach the caller; forloop truthful
+    let q = vec![
+        Node::If { arms: vec![(Cond::atom(Atom::Truthy(v("a"))), vec![txt("sees-a")])], else_: Some(vec![txt("no-a")]) },
+        Node::Out(v("k"), vec![]),
+        Node::Assign("a".into(), Expr::str("q-a"), vec![]),
+        Node::Assign("k".into(), Expr::str("rebound"), vec![]),
+        Node::Out(v("k"), vec![]),
+        Node::Cycle { group: Some(Expr::str("g")), values: vec![Expr::int(1), Expr::int(2)] },
+        Node::Break,
+        txt("unreached"),
+    ];
+    let main = {
+        let mut m = vec![Node::Cycle { group: Some(Expr::str("g")), values: vec![Expr::int(1), Expr::int(2)] }];
+        m.push(Node::For { var: "i".into(), coll: Coll::Range(Expr::int(1), Expr::int(2)), limit: None, offset: None, reversed: false, body: vec![Node::Render { name: Expr::str("q"), mode: RenderMode::Plain, args: vec![("k".into(), v("b"))] }, txt(";")], else_: None });
+        m.push(Node::Render { name: Expr::str("q"), mode: RenderMode::With(Expr::str("w"), "k".into()), args: vec![] });
+        m.push(Node::Cycle { group: Some(Expr::str("g")), values: vec![Expr::int(1), Expr::int(2)] });
+        m.extend(probe());
+        m
+    };
+    out.push((main, vec![("q".to_string(), PSrc::Ast(q))], data.clone()));
+    let f = vec![txt("["), Node::Out(v("it"), vec![]), txt(":"), Node::Out(Expr::Var(Path::name("forloop").dot("index")), vec![]), txt("/"), Node::Out(Expr::Var(Path::name("forloop").dot("length")), vec![]), Node::Out(Expr::Var(Path::name("forloop").dot("last")), vec![]), txt("]")];
+    let main = vec![Node::Render { name: Expr::str("f"), mode: RenderMode::For(Coll::Expr(v("xs")), "it".into()), args: vec![] }, Node::Render { name: Expr::str("f"), mode: RenderMode::For(Coll::Range(Expr::int(3), Expr::int(2)), "it".into()), args: vec![] }, txt(".")];
+    out.push((main, vec![("f".to_string(), PSrc::Ast(f))], RVal::Object(vec![("xs".into(), RVal::Array(vec![s("u"), s("v"), s("w")]))])));
+    // missing / broken on executed paths
+    for (tag_is_include, name) in [(true, "missing"), (false, "missing"), (true, "broken"), (false, "broken")] {
+        let tag = if tag_is_include { Node::Include { name: Expr::str(name), args: vec![] } } else { Node::Render { name: Expr::str(name), mode: RenderMode::Plain, args: vec![] } };
+        out.push((vec![txt("before"), tag, txt("after")], vec![("broken".to_string(), PSrc::Broken("{% if %}".into()))], data.clone()));
+    }
+    out
+}
+
+pub fn run(ctx: &mut Ctx) {
+    ctx.start_watchdog(180);
+    for (k, (main, parts, data)) in fixed().into_iter().enumerate() {
+        let c = Case { main: &main, partials: &parts, data: &data, family: "fixed-clauses", strip_newlines: false, style_seed: k as u64 };
+        run_case(ctx, &c, true);
+    }
+    let n = ctx.scale(50_000u64, 1_000_000u64);
+    let rng = ctx.rng("c08");
+    for i in 0..n {
+        let mut r = rng.fork(i);
+        let (main, parts, data) = scenario(&mut r);
+        let c = Case { main: &main, partials: &parts, data: &data, family: "generated-scenarios", strip_newlines: false, style_seed: r.next() };
+        run_case(ctx, &c, true);
+    }
+}
+
+pub fn replay(j: &serde_json::Value) -> bool {
+    super::common::replay_program(j)
 }
